@@ -369,6 +369,51 @@ func init() {
 			}
 			c.emit(e)
 		}
+		// (2f) sizes: more than a million intervals on a short line; a line of more than a million segments of inexact
+		// lengths (thirds): the counts and the ends as always
+		for _, parts := range []int{1<<20 + 1, 3000000, c.pick(1<<21, 1<<23)} {
+			total := 3 * 7 * 11 // = 231, a line of three segments
+			ls := orb.LineString{{0, 0}, {77, 0}, {77, 77}, {154, 77}}
+			for side := -1; side <= 1; side += 2 {
+				e := map[string]interface{}{"k": "icount", "fn": "ToInterval", "total": total, "parts": parts, "side": side, "nt": 1}
+				setCurrent("resample.ToInterval(many)", e)
+				d := float64(total) / float64(parts) * (1 + float64(side)*1e-10)
+				var out orb.LineString
+				site := guard(func() { out = resample.ToInterval(ls.Clone(), planar.Distance, d) })
+				if site != "" {
+					c.emit(panicEvent("resample.ToInterval", site, e))
+					continue
+				}
+				e["n"] = len(out)
+				e["ends"] = 0
+				if len(out) >= 1 && out[0] == ls[0] && (len(out) < 2 || planar.Distance(out[len(out)-1], ls[len(ls)-1]) < 1e-3) {
+					e["ends"] = 1
+				}
+				c.emit(e)
+			}
+		}
+		for _, segs := range []int{1<<20 + 3, c.pick(1<<20+77, 1<<22+5)} {
+			ls := make(orb.LineString, segs+1)
+			for j := range ls {
+				ls[j] = orb.Point{float64(j) / 3, float64(j%7) / 3}
+			}
+			N := 2 + c.rng.Intn(9)
+			e := map[string]interface{}{"k": "fcount", "fn": "Resample", "nreq": N, "nt": 1}
+			setCurrent("resample.Resample(a million segments)", e)
+			var out orb.LineString
+			first, last := ls[0], ls[len(ls)-1]
+			site := guard(func() { out = resample.Resample(ls, planar.Distance, N) })
+			if site != "" {
+				c.emit(panicEvent("resample.Resample", site, e))
+				continue
+			}
+			e["n"] = len(out)
+			e["ends"] = 0
+			if len(out) >= 2 && out[0] == first && out[len(out)-1] == last {
+				e["ends"] = 1
+			}
+			c.emit(e)
+		}
 		// (3) great-circle distance functions: count, endpoints, order on eastward paths
 		ng := c.pick(2000, 20000)
 		for i := 0; i < ng; i++ {
@@ -390,6 +435,10 @@ func init() {
 				ls = append(ls, orb.Point{west, y - 5}, orb.Point{180, y}, orb.Point{-180, y})
 				for len(ls) < k {
 					ls = append(ls, orb.Point{ls[len(ls)-1][0] + 1 + c.rng.Float64()*8, y + 3 + float64(len(ls))})
+				}
+				if i%8 == 7 { // ... or the line ends with that pair: its last vertex is (-180, y), no distance from the one before
+					ls = orb.LineString{{west - 9, y - 8}, {west, y - 5}, {180, y}, {-180, y}}
+					k = len(ls)
 				}
 			}
 			if i%4 == 1 {
@@ -426,6 +475,9 @@ func init() {
 				on := false
 				for j := 0; j+1 < len(ls); j++ {
 					a, b := ls[j], ls[j+1]
+					if p == a || p == b { // a vertex of the line is a point of the line
+						on = true
+					}
 					if math.Abs(a[0]-b[0]) > 300 {
 						continue
 					}
